@@ -245,6 +245,12 @@ def event_cases(r, tr, tier, tabs):
                 t = tr.clone()
                 t.streams[sidx][1].insert(i + 1, L.Ev(e.clock, e.mcv, u32(4) + u32(77)))
                 out.append(Case("nonjumbo-after-jumbo", f"s{sidx} non-jumbo {e.mcv} (8 bytes) after jumbo {e.mcv}", t))
+                # ... and one whose 12/16-byte payload is shaped like a complete jumbo body (size, type id,
+                # NUL-terminated label): only the flag tells it apart
+                for body in (u32(8) + u32(77) + b"abc\0", u32(12) + u32(78) + b"abcdefg\0"):
+                    t = tr.clone()
+                    t.streams[sidx][1].insert(i + 1, L.Ev(e.clock, e.mcv, body))
+                    out.append(Case("nonjumbo-after-jumbo", f"s{sidx} non-jumbo {e.mcv} ({len(body)} bytes, jumbo-shaped) after jumbo {e.mcv}", t))
                 t = tr.clone()
                 t.streams[sidx][1][i] = L.Ev(e.clock, e.mcv, u32(4) + u32(77))
                 out.append(Case("nonjumbo", f"s{sidx} {e.mcv} stored non-jumbo", t))
